@@ -62,3 +62,13 @@ Definition bound (w : weights) : Z :=
 (* the largest ply number at which a finished game still scores beyond the threshold with the built-in weights
    (Terminal_Plies = -100 per ply eats the margin WinBase - WinThreshold = 2^28) *)
 Definition max_terminal_ply : Z := 2684354.
+
+(* evaluateTerminal's value before the sign: WinBase + reserves (0..255) + flats (0..8) + opponent reserves (0..255) + plies (0..M) *)
+Definition term_lo (w : weights) (M : Z) : Z :=
+  WinBase + 255 * Z.min 0 (wt w Terminal_Reserves) + 8 * Z.min 0 (wt w Terminal_Flats) +
+  255 * Z.min 0 (wt w Terminal_OpponentReserves) + M * Z.min 0 (wt w Terminal_Plies).
+Definition term_hi (w : weights) (M : Z) : Z :=
+  WinBase + 255 * Z.max 0 (wt w Terminal_Reserves) + 8 * Z.max 0 (wt w Terminal_Flats) +
+  255 * Z.max 0 (wt w Terminal_OpponentReserves) + M * Z.max 0 (wt w Terminal_Plies).
+Definition mover_wins (p : position) (winner : gcolor) : bool :=
+  match winner with GWhite => to_move_white p | GBlack => negb (to_move_white p) | GNone => false end.
